@@ -117,7 +117,14 @@ def accept (umask : Nat) (dest : Option Inode) (part : Bool) (evs : List Ev) : S
   let feasible := sts.length = evs.length + 1
   let proc := String.ofList (sts.map fun fs => classify old new fs.destAfterProcCrash)
   let okLetters : List Char := [classify old new old, 'n', 'b']
-  let badAt := (sts.zipIdx).find? fun p => !(p.1.powerDests.all fun r => okLetters.contains (classify old new r))
+  -- `FS.powerDests` without enumerating long tails: an inode with two or more unsynced bytes has at
+  -- least three power-loss contents of different lengths, which cannot all be old or new
+  let powerOk (fs : FS) : Bool := (fs.dir :: fs.hist).all fun d =>
+    match fs.inode? d.dest with
+    | none => okLetters.contains (classify old new none)
+    | some i => i.tail.length < 2 &&
+        (List.range (i.tail.length + 1)).all fun k => okLetters.contains (classify old new (some (i.afterPower k)))
+  let badAt := (sts.zipIdx).find? fun p => !(powerOk p.1)
   let power := match badAt with | none => "ok" | some p => s!"bad@{p.2}"
   let final := match sts.getLast? with | some fs => fs | none => fs0
   s!"safe={if SafeTrace evs then 1 else 0} exec={if feasible then "ok" else s!"fail@{sts.length - 1}"} proc={proc} power={power} final={classify old new final.readDest} part={if final.dir.part.isSome then 1 else 0}"
